@@ -6,6 +6,8 @@ use ff::Field;
 use mzkh::Ctx;
 use serde_json::json;
 
+mod comrel;
+mod handles;
 mod ir;
 mod keys;
 mod lenrel;
@@ -587,7 +589,7 @@ fn fmt_bound(b: &rel::Bound) -> String {
 }
 
 /// One verifier-gadget exposure through the mock prover (same oracle as `expose_case`).
-fn ver_case(ctx: &mut Ctx, kind: &str, line_head: &str, body: &str, circuit: ver::VerCircuit, plain: Vec<F>, com: Vec<F>, max_edits: usize) {
+fn ver_case<Ci: midnight_proofs::plonk::Circuit<F>>(ctx: &mut Ctx, kind: &str, line_head: &str, body: &str, circuit: Ci, plain: Vec<F>, com: Vec<F>, max_edits: usize) {
     use rand::Rng;
     let total = plain.len() + com.len();
     let positions: Vec<usize> = if total <= max_edits {
@@ -724,7 +726,113 @@ fn run_verifier(ctx: &mut Ctx) {
             }
         }
     }
+    // `fixed_base_names` and the key order of the `BTreeMap` the off-circuit `Msm` keeps its fixed-base
+    // scalars in, against the model's names / sort
+    for (vk_name, nf, np) in [("vk", 0usize, 0usize), ("vk", 3, 2), ("vk", 10, 10), ("vk", 11, 2), ("a", 12, 11), ("inner_vk", 25, 13), ("vk", 101, 0)] {
+        let names = midnight_circuits::verifier::fixed_base_names::<ver::S>(vk_name, nf, np);
+        let map: std::collections::BTreeMap<String, usize> = names.iter().cloned().enumerate().map(|(i, n)| (n, i)).collect();
+        let sorted: Vec<String> = map.keys().cloned().collect();
+        let perm: Vec<String> = map.values().map(|i| i.to_string()).collect();
+        ctx.case("names", true, &format!("names {vk_name} {nf} {np}"), &format!("{} | {} | {}", names.join(","), sorted.join(","), perm.join(",")));
+    }
+    // the library's own canonical name list (`verifier::fixed_base_names`) of a key with more than
+    // 10 fixed commitments: NOT in lexicographic order (`.._10` < `.._2`), while the BTreeMap of
+    // the off-circuit `Msm` is (seeded defect C08-3: `AssignedMsm::assign` must sort the names)
+    for (nb_fixed, nb_perm, committed) in [(11usize, 2usize, false), (12, 11, true)] {
+        let names = midnight_circuits::verifier::fixed_base_names::<ver::S>("vk", nb_fixed, nb_perm);
+        let mut sorted = names.clone();
+        sorted.sort();
+        ctx.count(&format!("acc-canonical-names:{}:{}", names.len(), if sorted == names { "sorted" } else { "unsorted" }));
+        let mk = |rng: &mut rand_chacha::ChaCha8Rng, nb: usize| ver::MsmVal {
+            bases: (0..nb).map(|_| <ver::C as group::Group>::random(&mut *rng)).collect(),
+            scalars: (0..nb).map(|_| F::random(&mut *rng)).collect(),
+            fixed: names.iter().map(|n| (n.clone(), F::random(&mut *rng))).collect(),
+        };
+        let l = mk(&mut rng, 1);
+        let r = mk(&mut rng, 1);
+        let body = format!("{} {}", l.token(), r.token());
+        let circuit = ver::VerCircuit { what: if committed { ver::Expose::AccCommitted } else { ver::Expose::Acc }, vk: None, lhs: l.clone(), rhs: r.clone() };
+        if committed {
+            let (p, c) = ver::enc_acc_committed(&l, &r);
+            ver_case(ctx, "expose-acc-committed", "exposeaccc", &body, circuit, p, c, max_edits);
+        } else {
+            ver_case(ctx, "expose-acc", "exposeacc", &body, circuit, ver::enc_acc(&l, &r), vec![], max_edits);
+        }
+    }
     let _ = rng.gen::<u8>();
+}
+
+
+/// Exposure through several handles on the native chip (clones held by gadgets), on the plain and
+/// on the committed instance column, interleaved (see `handles.rs`; seeded defect C08-4).
+fn run_handles(ctx: &mut Ctx) {
+    use handles::{HCircuit, HStep, HVal};
+    use rand::Rng;
+    let mut rng = ctx.rng("handles");
+    let quick = small(ctx);
+    let nat = |x: u64| Item::Native(F::from(x));
+    let it = |h: &'static str, p: Path, v: Item| HStep { h, v: HVal::It(p, v) };
+    use Path::{Assign as A, Committed as M, Constrain as Cn};
+    let mut seqs: Vec<Vec<HStep>> = vec![
+        // committed inputs through ONE handle
+        vec![it("chip", Cn, nat(1)), it("gadget", Cn, nat(2)), it("gadget", M, nat(3)), it("gadget", M, nat(4)), it("gadget", M, Item::Byte(0xC8))],
+        // the circuit of seeded/C08-4/demo.rs: committed inputs through two handles
+        vec![it("chip", Cn, nat(11)), it("gadget", Cn, nat(12)), it("chip", M, nat(13)), it("gadget", M, nat(14)), it("chip", M, nat(15)), it("gadget", M, Item::Byte(255))],
+        // two committed values only, one per handle (smallest colliding shape), equal values
+        vec![it("g2", M, nat(7)), it("eccsc", M, nat(7))],
+        // every handle, both columns, interleaved with points, emulated field elements and accumulators
+        vec![
+            it("chip", M, rand_item_native(&mut rng)),
+            it("gadget", Cn, Item::Bit(true)),
+            it("eccsc", M, Item::Byte(200)),
+            it("ecc", Cn, Item::BlsPoint(group::Group::identity())),
+            it("g2", M, Item::Bit(true)),
+            it("ff", A, Item::BlsBase(ff::Field::ZERO)),
+            it("chip", A, nat(0)),
+            it("gadget", M, nat(0)),
+            HStep { h: "ver", v: HVal::Acc(true, rand_msm(&mut rng, 1, 1, "l"), rand_msm(&mut rng, 1, 2, "r")) },
+            it("g2", A, Item::Byte(1)),
+            it("eccsc", M, rand_item_native(&mut rng)),
+            HStep { h: "ver", v: HVal::Acc(false, rand_msm(&mut rng, 0, 1, "l"), rand_msm(&mut rng, 1, 0, "r")) },
+            it("chip", M, Item::Native(-F::ONE)),
+            it("chip", Cn, Item::Bit(false)),
+        ],
+    ];
+    // seeded random interleavings over the native handles (and a point / accumulator now and then)
+    let nrand = if quick { 8 } else { 24 };
+    for _ in 0..nrand {
+        let n = rng.gen_range(3..=9);
+        let mut v = vec![];
+        for _ in 0..n {
+            let h = ["chip", "gadget", "g2", "eccsc"][rng.gen_range(0..4)];
+            let committed = rng.gen_bool(0.6);
+            let item = match rng.gen_range(0..4) {
+                0 if h != "chip" => Item::Bit(rng.gen()),
+                1 if h != "chip" => Item::Byte(rng.gen()),
+                _ => rand_item_native(&mut rng),
+            };
+            let p = if committed { M } else if rng.gen_bool(0.5) { Cn } else { A };
+            v.push(it(h, p, item));
+            match rng.gen_range(0..12) {
+                0 => v.push(it("ecc", Cn, Item::BlsPoint(bls_points(&mut rng, 1).pop().unwrap()))),
+                1 => v.push(HStep { h: "ver", v: HVal::Acc(true, rand_msm(&mut rng, 0, 0, "l"), rand_msm(&mut rng, 1, 1, "r")) }),
+                _ => {}
+            }
+        }
+        seqs.push(v);
+    }
+    for steps in seqs {
+        let circuit = HCircuit { steps };
+        let body = circuit.body();
+        let (plain, com) = circuit.raw_vectors();
+        let handles_used: std::collections::BTreeSet<&str> = circuit.steps.iter().filter(|s| s.encode().1.len() > 0).map(|s| s.h).collect();
+        ctx.count(&format!("handles-with-committed-inputs:{}", handles_used.len()));
+        ver_case(ctx, "expose-handles", "hexpose", &body, circuit, plain, com, if quick { 8 } else { 16 });
+    }
+}
+
+fn rand_item_native(rng: &mut rand_chacha::ChaCha8Rng) -> Item {
+    Item::Native(rand_field::<F>(rng))
 }
 
 /// IR value types through ZKIR programs.
@@ -895,6 +1003,12 @@ fn main() {
     }
     if on("ir") {
         run_ir(&mut ctx);
+    }
+    if on("handles") {
+        run_handles(&mut ctx);
+    }
+    if on("comrel") {
+        comrel::run_committed(&mut ctx);
     }
     ctx.finish();
 }
